@@ -5,6 +5,8 @@
 -/
 import ModVerif.Model.Module
 import ModVerif.Proofs.ModulePath
+import ModVerif.Proofs.ModuleSplit
+import ModVerif.Spec.PathSpec
 namespace ModVerif.Props.C06
 open ModVerif ModVerif.Module
 
@@ -27,5 +29,43 @@ example : checkImportPath (B "example.com/c++") = .ok () ∧ checkModPath (B "ex
   decide +kernel
 example : checkFilePath (fun _ => false) (B "a b/x~1") = .ok () ∧ checkImportPath (B "a b/x~1") = .error .invalidChar := by
   decide +kernel
+
+/-! ### SplitPathVersion -/
+
+/-- Whenever SplitPathVersion reports ok, prefix ++ suffix is the path and the suffix is empty, "/vN" with
+    N ≥ 2 (no leading zero), or — for paths starting with "gopkg.in/" — ".vN" or ".vN-unstable". -/
+theorem split_spec (p pre maj : Bytes) (h : splitPathVersion p = (pre, maj, true)) :
+    pre ++ maj = p ∧ PathSpec.MajorSuffix p maj := by
+  cases hg : isPrefixOfB (B "gopkg.in/") p
+  · obtain ⟨h1, h2⟩ := splitPathVersion_nongopkg p pre maj hg h
+    exact ⟨h1, h2.elim Or.inl (fun x => Or.inr (Or.inl x))⟩
+  · have h' : splitGopkgIn p = (pre, maj, true) := by
+      unfold splitPathVersion at h; simpa [hg] using h
+    obtain ⟨h1, h2, h3⟩ := splitGopkgIn_ok p pre maj h'
+    exact ⟨h1, Or.inr (Or.inr ⟨h2, h3⟩)⟩
+
+/-- With ok = false SplitPathVersion returns (path, "", false). -/
+theorem split_not_ok (p : Bytes) (h : (splitPathVersion p).2.2 = false) : splitPathVersion p = (p, [], false) := by
+  unfold splitPathVersion splitGopkgIn at *
+  dsimp only at *
+  repeat' split at h
+  all_goals (try (simp at h))
+  all_goals (repeat' split)
+  all_goals simp_all
+
+/-- Splitting a valid module path: ok, prefix ++ suffix = path, documented suffix shape. -/
+theorem split_valid_module_path (p : Bytes) (h : checkModPath p = .ok ()) :
+    ∃ pre maj, splitPathVersion p = (pre, maj, true) ∧ pre ++ maj = p ∧ PathSpec.MajorSuffix p maj := by
+  have hok := ((checkModPath_ok_iff p).mp h).2.2.2.2.2
+  refine ⟨(splitPathVersion p).1, (splitPathVersion p).2.1, ?_, ?_⟩
+  · rw [← hok]
+  · exact split_spec p _ _ (by rw [← hok])
+
+example : splitPathVersion (B "example.com/A~b/v2") = (B "example.com/A~b", B "/v2", true) := by decide +kernel
+example : splitPathVersion (B "gopkg.in/yaml.v2-unstable") = (B "gopkg.in/yaml", B ".v2-unstable", true) := by decide +kernel
+example : splitPathVersion (B "golang.org/x/mod") = (B "golang.org/x/mod", [], true) := by decide +kernel
+example : (splitPathVersion (B "example.com/m/v1")).2.2 = false ∧ (splitPathVersion (B "example.com/m/v02")).2.2 = false
+    ∧ (splitPathVersion (B "example.com/m/v2.1")).2.2 = false ∧ (splitPathVersion (B "gopkg.in/yaml.v-unstable")).2.2 = false
+    ∧ (splitPathVersion (B "gopkg.in/yaml")).2.2 = false := by decide +kernel
 
 end ModVerif.Props.C06
